@@ -8,7 +8,7 @@ KEYS = [
     'parso.tree.BaseNode.start_pos', 'parso.tree.BaseNode.end_pos', 'parso.tree.Leaf.start_pos#ghost',
     'parso.tree.Leaf.end_pos#ghost', 'parso.python.tree._LeafWithoutNewlines.end_pos#ghost',
     'parso.tree.Leaf.get_start_pos_of_prefix', 'parso.tree.BaseNode.get_start_pos_of_prefix',
-    'parso.python.tree.PythonLeaf.get_start_pos_of_prefix',
+    'parso.python.tree.PythonLeaf.get_start_pos_of_prefix', 'parso.python.tokenize._find_fstring_string',
 ]
 
 
